@@ -307,7 +307,7 @@ def with_engine_records(ctx, every=1, extra=frozenset()):
     Diagnostic only (`engine_shape_mismatch` is never a verdict)."""
     n = 0
     for c in ctx["cases"]:
-        if c.get("mode") == "query" and c.get("backend") != "surface" and not c.get("defs") \
+        if c.get("mode") == "query" and c.get("backend") != "surface" \
                 and not c.get("sched") and vlib.goal_tags({"b": c["body"]}) <= (ENGINE_TAGS | extra):
             n += 1
             if n % every == 0:
@@ -1363,10 +1363,17 @@ def as_case(ctx, c, suffix=""):
     return c
 
 
+def surface_engine(c):
+    """engine records for a surface case (the macro-built goal against Search.tla built from the case AST)"""
+    if c.get("backend") == "surface" and "take" not in c and not c.get("lterm"):
+        c["engine"] = True
+    return c
+
+
 def plan_c13(ctx):
     rng = ctx["rng"]
     for i in range(T(ctx, 350, 3000)):
-        add(ctx, [as_case(ctx, gen.match_program(rng, i))])
+        add(ctx, [surface_engine(as_case(ctx, gen.match_program(rng, i)))])
 
 
 def plan_c14(ctx):
@@ -1412,7 +1419,7 @@ def plan_c15(ctx):
         a["group"] = g
         b["group"] = g
         b["gcheck"] = "same_bag"
-        add(ctx, [a, b])
+        add(ctx, [surface_engine(a), surface_engine(b)])
 
 
 SURF_ASSUME = ["generated programs that compile; programs the macro rejects are not part of any property",
